@@ -460,6 +460,9 @@ def shared_destination_on_failure(prog, res):
     res.need(R, 4)
 
 
+COLLIDE = ("FIO_checkFilenameCollisions", "FIO_checkDstNameCollisions")
+
+
 def flat_directory_collisions(prog, res):
     """T3: in a flat output directory (--output-dir-flat) sources of one base name share one destination, each overwriting the
     previous result.  With --rm that loses every source but the last, so the collision verdict (FIO_checkFilenameCollisions,
@@ -472,10 +475,10 @@ def flat_directory_collisions(prog, res):
         res.check(len(per) >= 2, R, name + ":stages", f.loc, "%d per-source stage calls" % len(per), "%s has %d calls of %s" % (name, len(per), stage))
         def verdict(c):
             """the collision verdict itself, or a local that holds it (`v = cond ? FIO_checkFilenameCollisions(..) : 0`)"""
-            if is_call(c, "FIO_checkFilenameCollisions"):
+            if is_call(c, COLLIDE):
                 return True
             d = f.single_def(c.get("n")) if c.get("k") == "ref" and c.get("rk") in ("l", "sl") else None
-            return d is not None and any(is_call(y, "FIO_checkFilenameCollisions") for y in f.walk_deep(d))
+            return d is not None and any(is_call(y, COLLIDE) for y in f.walk_deep(d))
         hit = guards.truthy_edges(f, verdict, truth=True)
         clear = guards.truthy_edges(f, verdict, truth=False)
         before = [e for e in clear if any(t in f.flow([(e[1], 0)]) for t in per)]
@@ -487,7 +490,7 @@ def flat_directory_collisions(prog, res):
             for n, ds in f.local_defs().items():
                 for d in ds:
                     dd = strip_casts(f.resolve_x(d)) if d is not None else None
-                    if dd is not None and dd.get("k") == "cond" and any(is_call(y, "FIO_checkFilenameCollisions") for y in f.walk_resolved(dd.get("t") or {})) \
+                    if dd is not None and dd.get("k") == "cond" and any(is_call(y, COLLIDE) for y in f.walk_resolved(dd.get("t") or {})) \
                             and any(y.get("k") == "mem" and y.get("f") == "removeSrcFile" for y in f.walk_resolved(dd.get("c") or {})):
                         on_rm = True
         res.check(bool(before) and len(gated) == len(hit) and bool(hit), R, name + ":verdict-before-first-source", f.loc,
@@ -496,11 +499,21 @@ def flat_directory_collisions(prog, res):
                   "exits 0, out/x.zst holds d2/x only and both sources are deleted" % name)
         res.check(on_rm or (bool(hit) and not rm_side), R, name + ":refusal-is-for-rm", f.loc, "the refusal is taken on the --rm side (or unconditionally)",
                   "%s: the collision refusal no longer depends on removeSrcFile in the way the rule knows" % name)
-    g = prog.fn("FIO_checkFilenameCollisions")
-    verdicts = [r for b, i, r in g.returns() if r.get("e") is not None and const_val(strip_casts(g.resolve_x(r["e"]))) is None]
-    res.check(bool(verdicts), R, "FIO_checkFilenameCollisions:returns-its-verdict", g.loc, "%d computed return(s)" % len(verdicts),
-              "FIO_checkFilenameCollisions returns constants only: the callers' refusal can never be taken")
-    res.need(R, 7)
+    for gn in COLLIDE:
+        g = prog.fn(gn)
+        verdicts = [r for b, i, r in g.returns() if r.get("e") is not None and const_val(strip_casts(g.resolve_x(r["e"]))) is None]
+        res.check(bool(verdicts), R, gn + ":returns-its-verdict", g.loc, "%d computed return(s)" % len(verdicts),
+                  "%s returns constants only: the callers' refusal can never be taken" % gn)
+    # decompression: two sources collide when the names WITHOUT their compression suffix agree (x.tar.zst and x.tzst): the
+    # verdict taken before the loop must come from the routine that strips suffixes like FIO_determineDstName (it reads suffixList)
+    d = prog.fn("FIO_decompressMultipleFilenames")
+    pre = [c.get("c") for b, i, c in d.calls(COLLIDE) if any(t in d.flow([(b, i + 1)]) for t in d.call_roots("FIO_decompressSrcFile"))]
+    strips = {gn for gn in COLLIDE if any(y.get("k") == "ref" and y.get("n") == "suffixList" for b, i, y in prog.fn(gn).events())}
+    res.check(bool(pre) and set(pre) <= strips, R, "FIO_decompressMultipleFilenames:verdict-on-destination-names", d.loc,
+              "the verdict before the loop compares names with the compression suffix removed (%s)" % ", ".join(sorted(set(pre))),
+              "FIO_decompressMultipleFilenames takes its collision verdict from %s, which compares source base names: `zstd -d -f --rm --output-dir-flat out "
+              "a/x.tar.zst b/x.tzst` writes both to out/x.tar, exits 0 and removes both sources" % ", ".join(sorted(set(pre) - strips) or ["?"]))
+    res.need(R, 9)
 
 
 def sparse_needs_seekable_stdout(prog, res):
